@@ -109,6 +109,7 @@ def raise_cancelled(I):
 
 class CancelScopeEnv(EnvClass):
     """anyio.fail_after / move_on_after / CancelScope.  Ghost: a record on I.st.scopes."""
+    closed_api = True
     name = "CancelScope"
 
     def __init__(self):
@@ -148,7 +149,30 @@ class CancelScopeEnv(EnvClass):
     def cancel(self, I, recv, args, kwargs):
         rec = I.scope_records[I.oid_of(recv).as_long()]
         rec["cancelled"] = True
+        rec["cancel_requested"] = True
         return V.NONE
+
+    def getattr_hook(self, I, recv, name):
+        """the scope's status attributes.  cancel_called: cancel() was requested, or the deadline has been reached -
+        INCLUDING the instant at which an operation inside the scope completed exactly at the deadline (the deadline
+        callback and the completion are handled in the same event-loop turn: the operation's result is delivered and
+        cancel_called is already true).  cancelled_caught: the scope swallowed its own cancellation on exit."""
+        rec = I.scope_records.get(I.oid_of(recv).as_long()) if hasattr(I, "scope_records") else None
+        if rec is None:
+            return None
+        if name == "cancel_called":
+            if rec.get("cancel_requested") or rec.get("cancelled"):
+                return V.TRUE
+            if rec.get("deadline") is not None:
+                return V.VBool(I.st.now >= rec["deadline"])
+            return V.FALSE
+        if name in ("cancelled_caught", "cancel_caught"):
+            return V.VBool(bool(rec.get("cancelled_caught")))
+        if name == "shield":
+            return V.VBool(bool(rec.get("shield")))
+        if name == "deadline":
+            return V.VReal(rec["deadline"]) if rec.get("deadline") is not None else V.VReal(z3.RealVal("1e30"))
+        return None
 
 
 CANCEL_SCOPE = CancelScopeEnv()
@@ -198,6 +222,7 @@ class ReadStreamEnv(EnvClass):
     pos (how many have been consumed).  receive() begins with a checkpoint (anyio 4.x), then either
     delivers incoming[pos] or blocks until a scope fires; if the history is exhausted it may also raise
     EndOfStream / ClosedResourceError."""
+    closed_api = True
     name = "ReadStream"
 
     def __init__(self):
@@ -331,6 +356,7 @@ def checkpoint_mustfire(I):
 
 class WriteStreamEnv(EnvClass):
     """anyio MemoryObjectSendStream.  Ghost: written (messages accepted so far), closed."""
+    closed_api = True
     name = "WriteStream"
 
     def __init__(self, zero_time=False):
@@ -454,6 +480,17 @@ class UUIDEnv(EnvClass):
 
     def str_(self, I, recv, args, kwargs):
         return gfield(I, recv, "text")
+
+    def getattr_hook(self, I, recv, name):
+        if name == "hex":
+            # UUID.hex == str(u) without the dashes
+            from . import prelude as P2
+            t = Val.s(gfield(I, recv, "text"))
+            cl = P2.char_list(t)
+            if cl is not None:
+                return V.VStr(P2.from_chars([c for c in cl if not (isinstance(c, str) and c == "-")]))
+            return V.VStr(P2.replace_all(t, z3.StringVal("-"), z3.StringVal("")))
+        return None
 
 
 UUID_ENV = UUIDEnv()
